@@ -806,3 +806,11 @@ func pathExistsAfter(f *ssa.Function, a, b ssa.Instruction) bool {
 	}
 	return pathExists(f, a, b, contradicts, nil)
 }
+
+// fieldNameAt names the field a FieldAddr selects.
+func fieldNameAt(fa *ssa.FieldAddr) string {
+	if _, st := structOf(fa.X.Type()); st != nil && fa.Field < st.NumFields() {
+		return st.Field(fa.Field).Name()
+	}
+	return "?"
+}
